@@ -178,6 +178,20 @@ def _run_unit(arg):
     tmp = tempfile.mkdtemp(prefix="pyvc_%s_" % prop)
     os.environ["TMPDIR"] = tmp
     tempfile.tempdir = tmp
+    # wall-clock budget per unit: a unit that does not come back (path explosion or a solver call that ignores its own
+    # time-out on changed code) is UNDECIDED, never a hanging check
+    budget = int(os.environ.get("PYVC_UNIT_BUDGET", "0") or 0) or (3000 if tier == "thorough" else 300)
+    old_handler = None
+    try:
+        import signal as _signal
+        import threading as _threading
+        if _threading.current_thread() is _threading.main_thread():
+            def _on_alarm(signum, frame):
+                raise Undecided("unit time budget of %d s exceeded" % budget)
+            old_handler = _signal.signal(_signal.SIGALRM, _on_alarm)
+            _signal.alarm(budget)
+    except Exception:
+        old_handler = None
     try:
         mod = importlib.import_module(modname)
         fn = dict(mod.UNITS)[uname]
@@ -193,6 +207,13 @@ def _run_unit(arg):
     except Exception:
         status, err = "crash", traceback.format_exc()
     finally:
+        try:
+            import signal as _signal
+            _signal.alarm(0)
+            if old_handler is not None:
+                _signal.signal(_signal.SIGALRM, old_handler)
+        except Exception:
+            pass
         shutil.rmtree(tmp, ignore_errors=True)
         # a unit run in-process (single unit, --jobs 1) must not leave the removed directory as the temp dir
         if old_env is None:
